@@ -143,7 +143,7 @@ CHECKS = {
                      "SCRAM-SHA-256 (thorough: SHA-1, SHA-512, deep palettes) and client SCRAM / PLAIN / ANONYMOUS, each followed by an attempt to continue with AMQP and EOF. Clauses: "
                      "C19_NoOpenWithoutAuth (OK outcome, AMQP header, AMQP frame or accept()=Ok only when the ideal listener is authenticated), C19_ClientMutual / C19_NonOkIsFailure (the "
                      "client sends the AMQP header / open or returns Ok only after a valid server signature over the actual exchange with an extending nonce and an OK code), "
-                     "C19_BothFail (a refused exchange makes accept()/open() return an error), C19_NoPanic / C19_NoHang. Runs without any authenticated or refused exchange are tool errors.",
+                     "C19_BothFail (a refused exchange makes accept()/open() return an error), C19_NoPanic / C19_NoHang. Runs without any authenticated or refused exchange are tool errors. Replay: Replay.tla (a proof recorded in one exchange does not fit another as long as the server nonce is drawn per exchange; refuted for a nonce drawn once per listener) and `vh replay`: an honest login at a real listener is recorded and written to a second connection of the same listener, which must stay closed for SCRAM (PLAIN opens: the control) -- C19_NoReplay.",
                 note="trusted: harness/src/scram.rs (descriptor -> bytes; written from RFC 5802 with the hash crates, shares no code with fe2o3-amqp) and the symbolic-crypto assumption; "
                      "the endpoint may be stricter than the ideal machine; mechanism-name mismatches with otherwise valid credentials and iteration-count 0 are left undecided (DESIGN.md)"),
     "C17": dict(technique="TLC model check of channel allocation under the agreed channel-max and of heartbeat / idle time-out over a discrete clock (Limits.tla); TLC-generated channel-max pairs and timing scripts (LimitsGen.tla) executed on the paused tokio clock with 10 ms virtual steps; traces validated by the TLA+ observer",
